@@ -25,17 +25,19 @@ import (
 // INotifyHandler, the per-input pipeline by a stream hook, relay-pull attempts by a gated origin.
 
 type lcCfg struct {
-	RtmpPubs   []string `json:"rtmpPubs"`
-	RtspPubs   []string `json:"rtspPubs"`
-	CustPubs   []string `json:"custPubs"`
-	PsPubs     []string `json:"psPubs"`
-	RtmpSubs   []string `json:"rtmpSubs"`
-	FlvSubs    []string `json:"flvSubs"`
-	PullRetry  int      `json:"pullRetry"`
-	PullAutoMs int      `json:"pullAutoMs"`
-	Hook       bool     `json:"hook"`
-	Outputs    bool     `json:"outputs"` // HLS, HTTP-TS, FLV and TS recording enabled (C16)
-	Leak       int      `json:"leak"`    // > 0: run that many publish/unpublish cycles and report resource counts
+	RtmpPubs    []string `json:"rtmpPubs"`
+	RtspPubs    []string `json:"rtspPubs"`
+	CustPubs    []string `json:"custPubs"`
+	PsPubs      []string `json:"psPubs"`
+	RtmpSubs    []string `json:"rtmpSubs"`
+	FlvSubs     []string `json:"flvSubs"`
+	PullRetry   int      `json:"pullRetry"`
+	PullAutoMs  int      `json:"pullAutoMs"`
+	Hook        bool     `json:"hook"`
+	Outputs     bool     `json:"outputs"` // HLS, HTTP-TS, FLV and TS recording enabled (C16)
+	Leak        int      `json:"leak"`
+	PushTargets []string `json:"pushTargets"` // relay push targets (one gated stub RTMP server each)
+	ParamLen    int      `json:"paramLen"`    // length of the URL parameters of RTMP publishers    // > 0: run that many publish/unpublish cycles and report resource counts
 }
 
 type lcStep struct {
@@ -151,6 +153,13 @@ func lifecycleDriver(env *Env) error {
 	}
 	// scenarios are independent (own ServerManager, own origin): run them concurrently so that the
 	// real-time waits of the auto-stop scenarios overlap, and write the traces in scenario order
+	if env.Child != "" {
+		// child: write every event as soon as it exists (the process may die)
+		for _, sc := range scs {
+			runLifecycleScenario(sc, func(m M) { tw.Emit(m); tw.Flush() })
+		}
+		return nil
+	}
 	out := make([][]M, len(scs))
 	var wg sync.WaitGroup
 	sem := make(chan struct{}, 12)
@@ -164,7 +173,13 @@ func lifecycleDriver(env *Env) error {
 			defer wg.Done()
 			defer func() { <-sem }()
 			var evs []M
-			runLifecycleScenario(scs[i], func(m M) { evs = append(evs, m) })
+			if len(scs[i].Cfg.PushTargets) > 0 && env.Child == "" {
+				// relay push runs in goroutines lal owns: a panic there kills the process, so such a
+				// scenario runs in a child and its death becomes an observation
+				evs = lcRunInChild(scs[i], env.Seed)
+			} else {
+				runLifecycleScenario(scs[i], func(m M) { evs = append(evs, m) })
+			}
 			out[i] = evs
 		}(i)
 	}
@@ -287,6 +302,32 @@ func runLifecycleScenario(sc *lcScenario, emitEv func(M)) {
 		 "record":{"enable_flv":true,"flv_out_path":"%s/flv/","enable_mpegts":true,"mpegts_out_path":"%s/ts/"},
 		 "log":{"level":5,"filename":"","is_to_stdout":false,"assert_behavior":1}}`, outDir, outDir, outDir)
 	}
+	// relay push targets: gated listeners like the pull origin
+	targets := map[string]*lcOrigin{}
+	if len(sc.Cfg.PushTargets) > 0 {
+		addrs := []string{}
+		for _, t := range sc.Cfg.PushTargets {
+			o := newLcOrigin()
+			defer o.close()
+			targets[t] = o
+			addrs = append(addrs, `"`+o.ln.Addr().String()+`"`)
+		}
+		conf = strings.Replace(conf, `{"conf_version":"v0.4.1",`,
+			`{"conf_version":"v0.4.1","relay_push":{"enable":true,"addr_list":[`+strings.Join(addrs, ",")+`]},`, 1)
+	}
+	targetOf := func(addr string) string {
+		for t, o := range targets {
+			if o.ln.Addr().String() == addr {
+				return t
+			}
+		}
+		return ""
+	}
+	_ = targetOf
+	rawQuery := ""
+	if sc.Cfg.ParamLen > 0 {
+		rawQuery = "k=" + strings.Repeat("a", sc.Cfg.ParamLen-2)
+	}
 	names := map[string]string{} // lal unique key -> model id
 	var nmu sync.Mutex
 	nameOf := func(id string) string {
@@ -387,6 +428,12 @@ func runLifecycleScenario(sc *lcScenario, emitEv func(M)) {
 			}
 		}
 		ev["stat"] = M{"exists": st != nil, "listed": listed}
+		if len(targets) > 0 {
+			ev["orph"] = pushOrphans(sm, stream, targets)
+			pa, pn := pushSettle(sm, stream, targets)
+			ev["pa"] = pa
+			ev["pn"] = pn
+		}
 		if sc.Cfg.Outputs {
 			pipe := []string{}
 			if g := sm.GetGroup("", stream); g != nil {
@@ -436,7 +483,7 @@ func runLifecycleScenario(sc *lcScenario, emitEv func(M)) {
 			var err error
 			if kind == "rtmpPub" {
 				s.rtmp = rtmp.NewServerSession(nullObserver{}, s.conn)
-				s.rtmp.VerifSetIdentity("live", stream, "", true)
+				s.rtmp.VerifSetIdentity("live", stream, rawQuery, true)
 				s.key = s.rtmp.UniqueKey()
 				register(x, s)
 				err = sm.OnNewRtmpPubSession(s.rtmp)
@@ -696,6 +743,46 @@ func runLifecycleScenario(sc *lcScenario, emitEv func(M)) {
 			origin.mu.Unlock()
 			waitFor(3*time.Second, func() bool { return countNotif("pull_stop") > 0 })
 			emit("PullEnd", "", "ok")
+		case "PushOk":
+			o := targets[x]
+			plen := -1
+			var pmu sync.Mutex
+			_, pn0 := pushCounts(sm, stream, targets)
+			if c := o.take(); c != nil {
+				o.mu.Lock()
+				o.serving = c
+				o.mu.Unlock()
+				obs := &lcPushTargetObserver{onPub: func(q string) { pmu.Lock(); plen = len(q); pmu.Unlock() }}
+				go func() { _ = rtmp.NewServerSession(obs, c).RunLoop() }()
+			}
+			waitFor(3*time.Second, func() bool { pmu.Lock(); defer pmu.Unlock(); return plen >= 0 })
+			pa, pn := pushSettle(sm, stream, targets)
+			ret := "late"
+			if pn > pn0 {
+				ret = "ok"
+			}
+			n, h := drain()
+			pmu.Lock()
+			pl := plen
+			pmu.Unlock()
+			emitEv(M{"ev": "PushOk", "x": x, "obs": M{"ret": ret, "notif": n, "hook": h, "attempts": origin.count()}, "pa": pa, "pn": pn, "plen": pl})
+			continue
+		case "PushFail":
+			if c := targets[x].take(); c != nil {
+				c.Close()
+			}
+			emit("PushFail", x, "ok")
+		case "PushEnd":
+			o := targets[x]
+			o.mu.Lock()
+			if o.serving != nil {
+				o.serving.Close()
+				o.serving = nil
+			}
+			o.mu.Unlock()
+			_, pn0 := pushCounts(sm, stream, targets)
+			waitFor(3*time.Second, func() bool { _, pn := pushCounts(sm, stream, targets); return pn < pn0 })
+			emit("PushEnd", x, "ok")
 		case "Shutdown":
 			sm.Dispose()
 			emit("Shutdown", "", "ok")
@@ -723,7 +810,6 @@ func runLifecycleScenario(sc *lcScenario, emitEv func(M)) {
 }
 
 var _ = net.ErrClosed
-
 
 // lcFilesFinalised reports whether, with no input attached, every recording parses completely and
 // the live HLS playlist (if any) carries the end marker.
@@ -808,7 +894,6 @@ func lcLeakCycles(sm *logic.ServerManager, stream string, n int, emitEv func(M))
 	}
 }
 
-
 // lcRtspObserver hands the callbacks of rtsp.Server to the ServerManager, noting the pub session.
 type lcRtspObserver struct {
 	sm    *logic.ServerManager
@@ -818,7 +903,9 @@ type lcRtspObserver struct {
 func (o *lcRtspObserver) OnNewRtspSessionConnect(session *rtsp.ServerCommandSession) {
 	o.sm.OnNewRtspSessionConnect(session)
 }
-func (o *lcRtspObserver) OnDelRtspSession(session *rtsp.ServerCommandSession) { o.sm.OnDelRtspSession(session) }
+func (o *lcRtspObserver) OnDelRtspSession(session *rtsp.ServerCommandSession) {
+	o.sm.OnDelRtspSession(session)
+}
 func (o *lcRtspObserver) OnNewRtspPubSession(session *rtsp.PubSession) error {
 	o.onPub(session)
 	return o.sm.OnNewRtspPubSession(session)
@@ -829,5 +916,117 @@ func (o *lcRtspObserver) OnNewRtspSubSessionDescribe(session *rtsp.SubSession) (
 func (o *lcRtspObserver) OnNewRtspSubSessionPlay(session *rtsp.SubSession) error {
 	return o.sm.OnNewRtspSubSessionPlay(session)
 }
-func (o *lcRtspObserver) OnDelRtspPubSession(session *rtsp.PubSession) { o.sm.OnDelRtspPubSession(session) }
-func (o *lcRtspObserver) OnDelRtspSubSession(session *rtsp.SubSession) { o.sm.OnDelRtspSubSession(session) }
+func (o *lcRtspObserver) OnDelRtspPubSession(session *rtsp.PubSession) {
+	o.sm.OnDelRtspPubSession(session)
+}
+func (o *lcRtspObserver) OnDelRtspSubSession(session *rtsp.SubSession) {
+	o.sm.OnDelRtspSubSession(session)
+}
+
+// lcPushTargetObserver is the observer of the stub relay-push target: it records the URL parameters
+// that arrive with the publish command.
+type lcPushTargetObserver struct{ onPub func(rawQuery string) }
+
+func (o *lcPushTargetObserver) OnRtmpConnect(session *rtmp.ServerSession, opa rtmp.ObjectPairArray) {}
+func (o *lcPushTargetObserver) OnNewRtmpPubSession(session *rtmp.ServerSession) error {
+	o.onPub(session.RawQuery())
+	return nil
+}
+func (o *lcPushTargetObserver) OnNewRtmpSubSession(session *rtmp.ServerSession) error { return nil }
+
+// pushCounts returns the connection attempts the targets have seen and the push sessions attached.
+func pushCounts(sm *logic.ServerManager, stream string, targets map[string]*lcOrigin) (pa int, pn int) {
+	for _, o := range targets {
+		pa += o.count()
+	}
+	if g := sm.GetGroup("", stream); g != nil {
+		if v, ok := g.VerifSnapshot()["nPush"].(int); ok {
+			pn = v
+		}
+	}
+	return
+}
+
+// pushSettle waits until the asynchronous push goroutines of lal are quiescent -- every connection
+// that is being set up (in progress but not attached) is parked at its gated target -- and returns the
+// counts; what it returns is an observation, never a verdict.
+func pushSettle(sm *logic.ServerManager, stream string, targets map[string]*lcOrigin) (int, int) {
+	deadline := time.Now().Add(3 * time.Second)
+	okRounds := 0
+	for time.Now().Before(deadline) {
+		_, n := pushCounts(sm, stream, targets)
+		busy := 0
+		if g := sm.GetGroup("", stream); g != nil {
+			if v, ok := g.VerifSnapshot()["nPushing"].(int); ok {
+				busy = v - n
+			}
+		}
+		parked := 0
+		for _, o := range targets {
+			o.mu.Lock()
+			parked += len(o.parked)
+			o.mu.Unlock()
+		}
+		if busy == parked {
+			okRounds++
+			if okRounds >= 2 {
+				break
+			}
+		} else {
+			okRounds = 0
+		}
+		time.Sleep(2 * time.Millisecond)
+	}
+	return pushCounts(sm, stream, targets)
+}
+
+// pushOrphans: when the group is gone (removed by the tick, or the server shut down) the connections
+// still parked at the targets belong to nobody.  The target completes each of them and reports how
+// many lal then keeps open instead of closing (a push session attached to a stream that is gone).
+func pushOrphans(sm *logic.ServerManager, stream string, targets map[string]*lcOrigin) int {
+	if sm.GetGroup("", stream) != nil {
+		return 0
+	}
+	kept := 0
+	for _, o := range targets {
+		o.mu.Lock()
+		conns := o.parked
+		o.parked = nil
+		o.mu.Unlock()
+		for _, c := range conns {
+			done := make(chan struct{})
+			go func(c net.Conn) {
+				_ = rtmp.NewServerSession(&lcPushTargetObserver{onPub: func(string) {}}, c).RunLoop()
+				close(done)
+			}(c)
+			select {
+			case <-done:
+			case <-time.After(1500 * time.Millisecond):
+				kept++
+			}
+			c.Close()
+		}
+	}
+	return kept
+}
+
+// lcRunInChild runs one scenario in a child process; if the child dies the events it had written
+// are followed by a "Died" event (kind of crash, innermost lal frame).
+func lcRunInChild(sc *lcScenario, seed int64) []M {
+	lines, died, stderr := RunChild("lifecycle", sc, seed, 120)
+	var evs []M
+	for _, l := range lines {
+		var m M
+		if json.Unmarshal(l, &m) == nil {
+			evs = append(evs, m)
+		}
+	}
+	if len(evs) == 0 {
+		evs = append(evs, M{"ev": "reset", "sc": sc.Sc, "cfgId": sc.CfgId})
+	}
+	if died {
+		kind, frame := plPanicSig(stderr)
+		evs = append(evs, M{"ev": "Died", "x": "", "kind": kind, "frame": frame})
+	}
+	return evs
+}
